@@ -444,7 +444,9 @@ class DictArithmetic(dict):
 
         """
         if isinstance(other, dict):
-            for k, v in other.items():
+            # tuple so that ``self -= self`` does not iterate over a dictionary
+            # that is changing size
+            for k, v in tuple(other.items()):
                 self[k] -= v
         else:
             self[()] -= other
